@@ -1,7 +1,7 @@
 #!/bin/bash
 # usage: tools/benign_probe.sh <patch> [pids...]  — applies a (behaviour-preserving) patch to a scratch copy of /repo/yastn and runs the
 # quick checks on it; prints one line per check that does not exit 0
-P=$1; shift
+P=$(realpath "$1"); shift
 PIDS=${@:-C01 C02 C03 C04 C05 C06 C08 C09 C10 C13 C14 C15 C16 C17 C18 C19 C20}
 T=$(mktemp -d /tmp/sa-benign-XXXXXX)
 trap 'rm -rf $T' EXIT
